@@ -1548,6 +1548,9 @@ class Converter:
         logger.debug("Converter:_translate_function_def_common:%s", fn.name)
         _ = self._translate_function_signature_common(fn)
         for i, s in enumerate(fn.body):
+            if isinstance(s, ast.Return) and i != len(fn.body) - 1:
+                # Every return statement would otherwise add outputs to the function.
+                self._fail(s, "A return statement must be the last statement of the function.")
             self._translate_stmt(s, index_of_stmt=i)
         return self._current_fn
 
